@@ -3,11 +3,31 @@
    Statements of the machine-checked theorems this property's check relies on.  Each statement is
    spelled out here and proved from the lemma of the same name under `Peppi/` (generated once by
    `bin/mkprops.py`, then kept as source).  What is proved and what is partial: DESIGN.md §4. -/
+import Peppi.Lemmas.Unified
 import Peppi.Lemmas.C10Gen
 import Peppi.Lemmas.C10A
 import Peppi.Lemmas.PeppiRound
 set_option linter.unusedVariables false
 namespace Peppi.Props.C10
+
+/- from `Peppi.Lemmas.Unified` -/
+open Extracted in
+theorem C10_any (T : TextOracle) (r : Replay) (s : Start) (gk : Option GeckoBlocks) (h : r.WFAny T s gk)
+    (e : Bytes) (hfe : r.fend = some e) (hash : Bool) :
+    ∃ ge, gameEnd e = .ok ge ∧
+      readP T { skipFrames := true, computeHash := hash } (r.encodeAny s.version (portOccupancy s) gk) = .ok (r.gameSkip s ge, []) :=
+  _root_.Peppi.C10_any T r s gk h e hfe hash
+
+/- from `Peppi.Lemmas.Unified` -/
+open Extracted in
+theorem C10_any_agree (T : TextOracle) (r : Replay) (s : Start) (gk : Option GeckoBlocks) (h : r.WFAny T s gk)
+    (e : Bytes) (hfe : r.fend = some e) (hash : Bool) :
+    ∃ gFull gSkip, readSlp T { skipFrames := false, computeHash := hash } (r.encodeAny s.version (portOccupancy s) gk) = .ok gFull ∧
+      readSlp T { skipFrames := true, computeHash := hash } (r.encodeAny s.version (portOccupancy s) gk) = .ok gSkip ∧
+      gSkip.start = gFull.start ∧ gSkip.fend = gFull.fend ∧ gSkip.metadata = gFull.metadata ∧ gSkip.hashedLen = gFull.hashedLen ∧
+      gFull.hashedLen = (if hash then some (r.encodeAny s.version (portOccupancy s) gk).length else none) ∧
+      gSkip.frames = FCols.new s.version (portOccupancy s) :=
+  _root_.Peppi.C10_any_agree T r s gk h e hfe hash
 
 /- from `Peppi.Lemmas.C10Gen` -/
 open Extracted in
